@@ -96,7 +96,7 @@ def run(ctx, lean_ok):
     except Exception as e:
         ctx.oblige('gfortran build of tamoc/src/*.f95', False, str(e)[-1500:])
         F = None
-    ncase = ctx.n(100, 6000)
+    ncase = ctx.n(100, 2500)
     lines, exp = [], []
     nslow = 0
     worst = {}
